@@ -1,6 +1,6 @@
 SPECIFICATION Spec
 CONSTANTS
-  Family = "single"
+  Families = {"single"}
   Tier = "thorough"
 VIEW View
 INVARIANTS OneResultEach Sound Complete SoundOnScenario OnlyNeeded InOrder NothingWithoutKeys StoredFetched NothingInvented TopErrOnlyDB ClassSane Emit
